@@ -27,6 +27,17 @@ import traceback
 ROOT = os.path.dirname(os.path.dirname(os.path.abspath(__file__)))
 
 
+def out_root():
+    """Evidence and replays of the registered commands go to /verif. A run against a scratch copy (VMC_REPO, used only
+    to try seeded changes) must not overwrite them: it writes under VMC_OUT or /tmp/vmc_out/<name of the copy>."""
+    repo = os.environ.get("VMC_REPO")
+    if not repo:
+        return ROOT
+    out = os.environ.get("VMC_OUT") or os.path.join("/tmp/vmc_out", os.path.basename(repo.rstrip("/")))
+    os.makedirs(out, exist_ok=True)
+    return out
+
+
 def setup_paths():
     repo = os.environ.get("VMC_REPO")
     if repo:
@@ -231,7 +242,7 @@ def run_check(modname, tier, seed, workers=None, only_units=None):
     not_repro = [f["id"] for f in open_f if not hits[f["id"]] and tier in f.get("expected_tiers", ["quick", "thorough"])]
 
     # ---- replay artefacts, confirmed twice ------------------------------------
-    rdir = os.path.join(ROOT, "replays")
+    rdir = os.path.join(out_root(), "replays")
     os.makedirs(rdir, exist_ok=True)
     for old in os.listdir(rdir):
         if old.startswith(pid + "-") and old.endswith(".json"):
@@ -289,8 +300,8 @@ def run_check(modname, tier, seed, workers=None, only_units=None):
     ev = dict(property_id=pid, tier=tier, seed=int(seed), level="model_checking",
               coverage=cov, assumptions=list(getattr(mod, "ASSUMPTIONS", [])),
               wall_s=round(wall, 3), violations=int(nviol))
-    os.makedirs(os.path.join(ROOT, "evidence"), exist_ok=True)
-    with open(os.path.join(ROOT, "evidence", f"{pid}.json"), "w") as fh:
+    os.makedirs(os.path.join(out_root(), "evidence"), exist_ok=True)
+    with open(os.path.join(out_root(), "evidence", f"{pid}.json"), "w") as fh:
         json.dump(ev, fh, indent=1, sort_keys=True)
 
     for ln in lines:
